@@ -147,6 +147,23 @@ def stepLine (line : String) : String :=
     match fromHex k with
     | some key => s!"{Spec.keySlot key}"
     | none => "bad-op"
+  | ["sdecode", d] =>
+    match fromHex d with
+    | some view =>
+      match SDecode.frameReply goTables view with
+      | .incomplete => "incomplete"
+      | .stuck => "stuck"
+      | .ok ty n => s!"ok type={ty} consumed={n}"
+    | none => "bad-op"
+  | ["sinit", st, d] =>
+    match st.toNat?, fromHex d with
+    | some steps, some view =>
+      match SDecode.initializingDecode steps view with
+      | .incomplete => "incomplete"
+      | .done n => s!"done {n}"
+      | .fallThrough => "fallthrough"
+      | .invalidInit => "invalid"
+    | _, _ => "bad-op"
   | ["cdecode", lim, d] =>
     match lim.toNat?, fromHex d with
     | some limit, some view =>
